@@ -34,8 +34,8 @@ class Semaphore {
     //! 请求资源，注意：只能是协程调用
     bool acquire () {
         if (count_ == 0) {      //! 如果没有资源，则等待
-            token_.push(sch_.getToken());
             do {
+                token_.push(sch_.getToken());   //! 每次等待前都要登记，否则被唤醒后再次等待就无人唤醒了
                 sch_.wait();
                 if (sch_.isCanceled())
                     return false;
@@ -48,7 +48,7 @@ class Semaphore {
 
     //! 释放资源
     void release() {
-        if (count_ == 0 && !token_.empty()) {
+        if (!token_.empty()) {  //! 每释放一个资源就唤醒一个等待者
             auto t = token_.front();
             token_.pop();
             sch_.resume(t);
